@@ -286,5 +286,9 @@ def run(chk, prog):
                       "the population, means and widths stored at this record are computed after the last refresh of the projections they are moments of%s"
                       % ("" if not bad else ": " + ", ".join("%s is older than %s" % b_ for b_ in sorted(bad))), key)
     chk.floor("R5-record-sites-x-cases", n5, 16)
+    # ---- RD: dimensional consistency of the quantities this property depends on (sa/dims.py) ----------------------------------------
+    from . import dimrules
+    nrd = dimrules.run(chk, prog, "RD")
+    chk.floor("RD-requirements", nrd or 0, 2)
     chk.notes.append("C09: bunch subscripts, moment/projection/Simpson formulas, normalisation factor and coverage, copy path. "
                      "NOT decided: discretisation error of the moments.")
